@@ -17,6 +17,9 @@ mod c16;
 mod c19;
 mod probes;
 mod gcprobe;
+mod vmgen;
+mod vmrun;
+mod c17;
 
 use std::path::PathBuf;
 
@@ -51,7 +54,7 @@ fn main() {
         }
     }
     out::start_watchdog();
-    std::panic::set_hook(Box::new(|_| {}));
+    if std::env::var("VM_PANICMSG").is_err() { std::panic::set_hook(Box::new(|_| {})); }
     match (cmd.as_str(), a.prop.as_str()) {
         ("gen", "C02") => c02::gen(&a),
         ("gen", "C05") => c05::gen(&a),
@@ -63,6 +66,9 @@ fn main() {
         ("gen", "C10") => c10::gen(&a),
         ("gen", "C16") => c16::gen(&a),
         ("gen", "C19") => c19::gen(&a),
+        ("gen", "VM") | ("gen", "C03") => vmrun::gen(&a),
+        ("replay", "VM") => vmrun::replay(&a),
+        ("gen", "C17") => c17::gen(&a),
         _ => { eprintln!("unknown command/property"); std::process::exit(2); }
     }
 }
